@@ -327,3 +327,73 @@ Proof.
       * apply in_app_iff. right. left. reflexivity.
       * apply in_app_iff in G. apply in_app_iff. destruct G as [G|G]; [left; exact G|right; right; exact G].
 Qed.
+
+(* ---------- tracker-level monotonicity in the cap: max_size and write ---------- *)
+(* the graph just before / just after the contraction of a step, and the new tensor's size *)
+Definition pre_g (chi : Z) (late : bool) (g : hg) (m : tmap) (plr : list nat * (list nat * list nat)) : hg :=
+  let '(p, (l, r)) := plr in
+  let li := tm_get l m in let ri := tm_get r m in
+  if late then hg_compress chi (get_node (hg_compress chi (get_node g li) g) ri) (hg_compress chi (get_node g li) g) else g.
+Definition con_g (chi : Z) (late : bool) (g : hg) (m : tmap) (plr : list nat * (list nat * list nat)) : hg * nat :=
+  let '(p, (l, r)) := plr in
+  hg_contract (tm_get l m) (tm_get r m) (pre_g chi late g m plr).
+Definition csize (chi : Z) (late : bool) (g : hg) (m : tmap) (plr : list nat * (list nat * list nat)) : Z :=
+  hg_node_size (fst (con_g chi late g m plr)) (snd (con_g chi late g m plr)).
+
+Lemma ccs_step_tracker chi late s plr :
+  t_max (cs_tr (ccs_step chi late s plr)) = Z.max (t_max (cs_tr s)) (csize chi late (cs_g s) (cs_map s) plr) /\
+  t_write (cs_tr (ccs_step chi late s plr)) = (t_write (cs_tr s) + csize chi late (cs_g s) (cs_map s) plr)%Z.
+Proof.
+  destruct plr as [p [l r]]. unfold ccs_step, csize, con_g, pre_g.
+  destruct late.
+  - destruct (hg_contract _ _ _) as [g' pi] eqn:E.
+    unfold tr_pre_compress. destruct (neighborhood_compress_cost _ _ _). cbn. split; reflexivity.
+  - destruct (hg_contract _ _ _) as [g' pi] eqn:E. cbn [fst snd].
+    unfold tr_pre_compress. destruct (neighborhood_compress_cost _ _ _). cbn. split; reflexivity.
+Qed.
+
+Lemma pre_g_mono chi1 chi2 late g1 g2 m plr : (0 <= chi1 <= chi2)%Z -> sz_le g1 g2 ->
+  sz_le (pre_g chi1 late g1 m plr) (pre_g chi2 late g2 m plr).
+Proof.
+  intros Hchi H. destruct plr as [p [l r]]. unfold pre_g. destruct late; [|exact H].
+  set (li := tm_get l m). set (ri := tm_get r m).
+  assert (H1 : sz_le (hg_compress chi1 (get_node g1 li) g1) (hg_compress chi2 (get_node g2 li) g2)).
+  { rewrite (get_node_shape g1 g2 li (proj1 H)). apply compress_mono; assumption. }
+  rewrite (get_node_shape _ _ ri (proj1 H1)). apply compress_mono; assumption.
+Qed.
+
+Lemma csize_mono chi1 chi2 late g1 g2 m plr : (0 <= chi1 <= chi2)%Z -> sz_le g1 g2 ->
+  (0 <= csize chi1 late g1 m plr <= csize chi2 late g2 m plr)%Z.
+Proof.
+  intros Hchi H. pose proof (pre_g_mono chi1 chi2 late g1 g2 m plr Hchi H) as Hp.
+  unfold csize, con_g. destruct plr as [p [l r]].
+  destruct (contract_shape (tm_get l m) (tm_get r m) _ _ (proj1 Hp)) as [_ Hk]. rewrite Hk.
+  apply node_size_mono, contract_mono, Hp.
+Qed.
+
+Theorem run_mono_max_write chi1 chi2 late n order : (0 <= chi1 <= chi2)%Z ->
+  (forall e, (0 <= zget e (szd n))%Z) ->
+  (t_max (cs_tr (ccs_run chi1 late n order)) <= t_max (cs_tr (ccs_run chi2 late n order)))%Z /\
+  (t_write (cs_tr (ccs_run chi1 late n order)) <= t_write (cs_tr (ccs_run chi2 late n order)))%Z.
+Proof.
+  intros Hchi Hpos. unfold ccs_run.
+  assert (G : forall order s1 s2, sz_le (cs_g s1) (cs_g s2) -> cs_map s1 = cs_map s2 ->
+              (t_max (cs_tr s1) <= t_max (cs_tr s2))%Z -> (t_write (cs_tr s1) <= t_write (cs_tr s2))%Z ->
+              (t_max (cs_tr (fold_left (ccs_step chi1 late) order s1)) <= t_max (cs_tr (fold_left (ccs_step chi2 late) order s2)))%Z /\
+              (t_write (cs_tr (fold_left (ccs_step chi1 late) order s1)) <= t_write (cs_tr (fold_left (ccs_step chi2 late) order s2)))%Z).
+  { clear order. induction order as [|plr order IH]; intros s1 s2 Hs Hm Hmax Hwr; cbn [fold_left]; [split; assumption|].
+    pose proof (ccs_step_struct chi1 late s1 plr) as E1. pose proof (ccs_step_struct chi2 late s2 plr) as E2.
+    destruct (ccs_step_tracker chi1 late s1 plr) as [M1 W1]. destruct (ccs_step_tracker chi2 late s2 plr) as [M2 W2].
+    rewrite <- Hm in E2, M2, W2.
+    pose proof (csize_mono chi1 chi2 late (cs_g s1) (cs_g s2) (cs_map s1) plr Hchi Hs) as Hc.
+    apply IH.
+    - replace (cs_g (ccs_step chi1 late s1 plr)) with (fst (step_g chi1 late (cs_g s1) (cs_map s1) plr)) by (rewrite <- E1; reflexivity).
+      replace (cs_g (ccs_step chi2 late s2 plr)) with (fst (step_g chi2 late (cs_g s2) (cs_map s1) plr)) by (rewrite <- E2; reflexivity).
+      apply step_g_mono; assumption.
+    - replace (cs_map (ccs_step chi1 late s1 plr)) with (snd (step_g chi1 late (cs_g s1) (cs_map s1) plr)) by (rewrite <- E1; reflexivity).
+      replace (cs_map (ccs_step chi2 late s2 plr)) with (snd (step_g chi2 late (cs_g s2) (cs_map s1) plr)) by (rewrite <- E2; reflexivity).
+      apply (step_g_shape chi1 chi2 late _ _ _ plr (proj1 Hs)).
+    - rewrite M1, M2. lia.
+    - rewrite W1, W2. lia. }
+  apply G; try reflexivity; try lia. split; [reflexivity|]. intros e. cbn. specialize (Hpos e). lia.
+Qed.
